@@ -14,6 +14,7 @@ import (
 	"sort"
 	"strconv"
 
+	"github.com/ipfs/boxo/ipld/merkledag"
 	bhamt "github.com/ipfs/boxo/ipld/unixfs/hamt"
 	pb "github.com/ipfs/boxo/ipld/unixfs/pb"
 	"github.com/ipfs/go-cid"
@@ -78,6 +79,9 @@ type DirCase struct {
 	Script   [][]any   `json:"script"`
 	MixV0    bool      `json:"mixv0"`
 	Timeout  bool      `json:"timeout"` // injected load errors report themselves as timeouts
+	ErrKind  string    `json:"errkind"` // injected error kind that wins over both: eofwrap | unexpectedeof
+	// EmptyShard: the sharded builder's root additionally links (at its lowest unused bucket) to a child shard that holds nothing
+	EmptyShard bool `json:"emptyshard"`
 	Hasher   uint64    `json:"hasher"`  // sharded builder: multihash code of the name hasher (0 = murmur3)
 	// UniverseHex carries the names byte-exactly (JSON strings cannot hold bytes that are not valid UTF-8)
 	UniverseHex []string `json:"universehex"` // entries with odd ids point at a CIDv0 (34-byte) target instead of a CIDv1 (36-byte) one
@@ -133,6 +137,67 @@ type quickNode struct {
 func (q quickNode) Size() (int64, error) { return q.sz, nil }
 func (q quickNode) Link() ipld.Link      { return q.l }
 
+// injectEmptyShard rewrites the root of a stored HAMT so that its lowest unused bucket links to a child shard that
+// holds nothing (no links, empty bitfield) - a valid-looking directory as left by a writer that removes entries
+// without collapsing shards.  The entry set is unchanged.
+func injectEmptyShard(st *Store, root cid.Cid) (cid.Cid, uint64, error) {
+	b, _ := st.Get(root)
+	pn, d, err := decodePB(root, b)
+	if err != nil || d == nil || d.GetType() != pb.Data_HAMTShard {
+		return root, 0, fmt.Errorf("injectEmptyShard: not a shard (%v)", err)
+	}
+	fan := int(d.GetFanout())
+	pad := len(fmt.Sprintf("%X", fan-1))
+	used := map[int]bool{}
+	for _, l := range pn.Links() {
+		bi, _ := strconv.ParseUint(l.Name[:pad], 16, 32)
+		used[int(bi)] = true
+	}
+	bucket := -1
+	for i := 0; i < fan; i++ {
+		if !used[i] {
+			bucket = i
+			break
+		}
+	}
+	if bucket < 0 {
+		return root, 0, fmt.Errorf("injectEmptyShard: no free bucket")
+	}
+	t := pb.Data_HAMTShard
+	ht, fo := uint64(0x22), uint64(fan)
+	ed, err := proto.Marshal(&pb.Data{Type: &t, Data: []byte{}, HashType: &ht, Fanout: &fo})
+	if err != nil {
+		return root, 0, err
+	}
+	empty := merkledag.NodeWithData(ed)
+	empty.SetCidBuilder(cid.V1Builder{Codec: cid.DagProtobuf, MhType: multihash.SHA2_256})
+	st.Put(empty.Cid(), empty.RawData())
+	// set the bucket's bit (the bitfield is a big-endian number, leading zero bytes may be stripped)
+	bf := append([]byte{}, d.Data...)
+	for len(bf) < bucket/8+1 {
+		bf = append([]byte{0}, bf...)
+	}
+	bf[len(bf)-1-bucket/8] |= 1 << uint(bucket%8)
+	d.Data = bf
+	nd, err := proto.Marshal(d)
+	if err != nil {
+		return root, 0, err
+	}
+	nr := merkledag.NodeWithData(nd)
+	nr.SetCidBuilder(cid.V1Builder{Codec: cid.DagProtobuf, MhType: multihash.SHA2_256})
+	for _, l := range pn.Links() {
+		if err := nr.AddRawLink(l.Name, &format.Link{Name: l.Name, Size: l.Size, Cid: l.Cid}); err != nil {
+			return root, 0, err
+		}
+	}
+	if err := nr.AddNodeLink(fmt.Sprintf("%0*X", pad, bucket), empty); err != nil {
+		return root, 0, err
+	}
+	st.Put(nr.Cid(), nr.RawData())
+	sz, _ := nr.Size()
+	return nr.Cid(), sz, nil
+}
+
 // buildDir builds the directory of a case; returns root cid, returned size.
 func buildDir(st *Store, dc *DirCase, targets []cid.Cid) (cid.Cid, uint64, error) {
 	ls := st.LinkSystem()
@@ -155,6 +220,13 @@ func buildDir(st *Store, dc *DirCase, targets []cid.Cid) (cid.Cid, uint64, error
 		}
 		if err != nil {
 			return cid.Undef, 0, err
+		}
+		if dc.EmptyShard && dc.Builder == "sharded" {
+			c, nsz, err := injectEmptyShard(st, l.(cidlink.Link).Cid)
+			if err != nil {
+				return cid.Undef, 0, err
+			}
+			return c, nsz, nil
 		}
 		return l.(cidlink.Link).Cid, sz, nil
 	case "quick":
@@ -582,6 +654,7 @@ func runDirCase(dc *DirCase, tr *Tr) error {
 	}
 	st.notFound = dc.NotFound
 	st.timeout = dc.Timeout
+	st.errKind = dc.ErrKind
 	st.logLoads = true
 	st.loadCount = 0
 	st.failLoadAt = dc.FailAt
